@@ -439,7 +439,9 @@ func createUpstreamRequest(rw http.ResponseWriter, r *http.Request) (*http.Reque
 	// important is "Connection" because we want a persistent
 	// connection, regardless of what the client sent to us.
 	for _, h := range hopHeaders {
-		if outreq.Header.Get(h) != "" {
+		// (present, whatever its first value: "Proxy-Authorization:" on an
+		// empty line followed by a line with the credentials)
+		if _, present := outreq.Header[h]; present {
 			if !copiedHeaders {
 				outreq.Header = make(http.Header)
 				copyHeader(outreq.Header, r.Header)
